@@ -947,7 +947,7 @@ fn build_net(run: u64, seed: u64, cfg: &Value, log: &Log) -> Net {
 	let k = cfg["n"].as_u64().unwrap_or(2) as usize;
 	let value = cfg["value"].as_u64().unwrap_or(400_000);
 	let push = cfg["push"].as_u64().unwrap_or(value * 500);
-	let n = match topo.as_str() { "fan" => k + 2, "par" => 2, _ => k };
+	let n = match topo.as_str() { "fan" => k + 2, "fan2" => 2 * k + 2, "par" => 2, _ => k };
 	let cfgs = leak(create_chanmon_cfgs(n));
 	let persisters: &'static Vec<CountPersister> = leak((0..n).map(|_| CountPersister { updates: AtomicU64::new(0) }).collect());
 	let node_cfgs = leak(create_node_cfgs_with_persisters(n, cfgs, persisters.iter().collect()));
@@ -972,6 +972,8 @@ fn build_net(run: u64, seed: u64, cfg: &Value, log: &Log) -> Net {
 	let mut pairs: Vec<(usize, usize)> = Vec::new();
 	match topo.as_str() {
 		"fan" => { for i in 1..=k { pairs.push((0, i)); } for i in 1..=k { pairs.push((i, k + 1)); } },
+		// A -chan i-> B_i -chan k+i-> C_i -chan 2k+i-> D   (B_i = node i, C_i = node k+i, D = node 2k+1)
+		"fan2" => { for i in 1..=k { pairs.push((0, i)); } for i in 1..=k { pairs.push((i, k + i)); } for i in 1..=k { pairs.push((k + i, 2 * k + 1)); } },
 		"par" => { for _ in 0..k { pairs.push((0, 1)); } },
 		_ => { for i in 0..n - 1 { pairs.push((i, i + 1)); } },
 	}
